@@ -64,6 +64,10 @@ func c05Cases(cfg vlib.Cfg) []*c05Spec {
 			sp = c05EarlyContextCase(r)
 		case i%40 == 37 && i < 240:
 			sp = c05SvcLoopCase(r)
+		case i%40 == 9:
+			sp = c05StragglerCase(r)
+		case i%40 == 29:
+			sp = c05HookWindowCase(r)
 		case i%40 == 3 || i%40 == 23:
 			sp = c05ConcludeStormCase(r)
 		case i%40 == 13 || i%40 == 33:
@@ -603,5 +607,54 @@ func c05ParkedStopperCase(r *vlib.Rand, idx int) *c05Spec {
 	if r.Chance(1, 3) {
 		sp.Mgmt, sp.StopVia, sp.Disable = true, "manage", []string{"ma"}
 	}
+	return sp
+}
+
+// c05StragglerCase (several lives): the first stop of ma (by a management pass) runs into
+// a small stop timeout because one item only returns when the modules.stop.timeout hook
+// fired; it returns afterwards; ma is started again by the next pass; items of the same
+// counter family are running at the next stop (or nothing is). The later stop must wait
+// for them (P2) and must not wait for anything else (P3).
+func c05StragglerCase(r *vlib.Rand) *c05Spec {
+	sp := &c05Spec{Class: "stragglers:", Limit: 64, StopTimeoutMs: 300, StopTimeoutMs2: c05StopTimeoutMs, SlowStop: true,
+		Mgmt: true, StopVia: "manage", Disable: []string{"ma"}, Restart: true}
+	dep := &c05Mod{Name: "m0", StopDelayMs: 0}
+	dep.Items = append(dep.Items, &c05Item{ID: "m0-w", Kind: kWorker, Settled: true, Wait: "ctx", Cycle: 1})
+	ms := &c05Mod{Name: "ma", Deps: []string{"m0"}, StopDelayMs: vlib.Pick(r, 0, 1)}
+	fam := r.Intn(3)
+	slowKind := []string{kWorkerRun, "mt_run_med", kTaskQ}[fam]
+	sp.Class += []string{"worker", "microtask", "task"}[fam]
+	ms.Items = append(ms.Items, &c05Item{ID: "slow0", Kind: slowKind, Settled: true, Wait: "latch", Latch: "modules.stop.timeout|ma", LingerMs: vlib.Pick(r, 0, 1, 5), Cycle: 1})
+	ms.Items = append(ms.Items, &c05Item{ID: "ma-c1", Kind: kWorker, Settled: true, Wait: "ctx", Cycle: 1})
+	if r.Chance(3, 4) {
+		next := [][]string{{kWorker, kWorkerRun, kSvc}, {"mt_start_med", "mt_run_low", "mt_sig_high", "mt_start_high"}, {kTaskQ, kTaskA}}[fam]
+		n := r.Range(1, 2)
+		if fam == 2 {
+			n = 1
+		}
+		for j := 0; j < n; j++ {
+			ms.Items = append(ms.Items, &c05Item{ID: fmt.Sprintf("ma-n%d", j), Kind: vlib.Pick(r, next...), Settled: true, Wait: "ctx", LingerMs: vlib.Pick(r, 20, 40, 60), Cycle: 2, DoneCalls: 1})
+		}
+	} else {
+		sp.Class += "+idle-next-life"
+	}
+	sp.Mods = []*c05Mod{ms, dep}
+	return sp
+}
+
+// c05HookWindowCase: an event is triggered on a module that is already offline while a
+// module that hooks the event (and does not depend on the source) is still online: the
+// source and mx stop first during Shutdown, mh (a dependency of mx) stays online until
+// mx's slow stop routine - which triggers the event - has returned.
+func c05HookWindowCase(r *vlib.Rand) *c05Spec {
+	sp := &c05Spec{Class: "hookwindow", Limit: 64, StopTimeoutMs: c05StopTimeoutMs, StopVia: "shutdown", Mgmt: r.Bool()}
+	src := &c05Mod{Name: "ms", StopDelayMs: 0, StopNil: r.Chance(1, 3)}
+	if r.Bool() {
+		src.Items = append(src.Items, &c05Item{ID: "ms-w", Kind: kWorker, Settled: true, Wait: "ctx", Cycle: 1})
+	}
+	mh := &c05Mod{Name: "mh", StopDelayMs: 0}
+	mh.Items = append(mh.Items, &c05Item{ID: "mh-w", Kind: kWorker, Settled: true, Wait: "ctx", Cycle: 1})
+	mx := &c05Mod{Name: "mx", Deps: []string{"mh"}, StopDelayMs: vlib.Pick(r, 10, 30), TriggerOnStopped: "ms"}
+	sp.Mods = []*c05Mod{src, mh, mx}
 	return sp
 }
